@@ -164,6 +164,15 @@ def level2_library(name, lang, cfi, debug=False):
     if lang == "c++":
         fs += [F("gxi", "int", [P("s", "str_cref"), P("x", "val", "double")], generic=[dict(g, decl="(const std::string &s, %s x)" % g["types"]["x"]) for g in gen_]),
                F("gxo", "void", [n_(), P("s", "str_ref_out"), P("x", "val", "double")], generic=[dict(g, decl="(int n, std::string &s +intent(out), %s x)" % g["types"]["x"]) for g in gen_])]
+    # a by-value char after the string argument (strings.yaml passChar next to the string functions): the string rules
+    # still apply to the string
+    fs += [F("cic", "int", [P("s", "cstr_in"), P("c", "val", "char")]),
+           F("cioc", "void", [n_(), P("cap", "val", "int", role="cap"), P("s", "cstr_inout"), P("c", "val", "char")]),
+           F("coc", "void", [n_(), P("s", "cstr_out", charlen=12), P("c", "val", "char")])]
+    if lang == "c++":
+        fs += [F("xic", "int", [P("s", "str_cref"), P("c", "val", "char")]),
+               F("xoc", "void", [n_(), P("s", "str_ref_out"), P("c", "val", "char")]),
+               F("xioc", "void", [n_(), P("s", "str_ref_inout"), P("c", "val", "char")])]
     if lang == "c++":
         fs += [F("xi", "int", [P("s", "str_cref")]), F("xv", "int", [P("s", "str_val")]), F("xp", "int", [P("s", "str_cptr")]),
                F("xo", "void", [n_(), P("s", "str_ref_out")]), F("xio", "void", [n_(), P("s", "str_ref_inout")]),
@@ -187,6 +196,8 @@ def level2_plan(lib, N):
         kinds = [p["kind"] for p in f["params"]]
         sp = next((p for p in f["params"] if p["kind"] in ir.STR_KINDS), None)
         def add(args, flen=None):
+            if any(p["name"] == "c" and p.get("T") == "char" for p in f["params"]):
+                args = dict(args, c=[65, 122, 48][len(plan) % 3])
             if f.get("generic"):
                 for gi, g in enumerate(f["generic"]):
                     if (len(plan) + gi) % 2 and len(args) > 1:
